@@ -43,3 +43,130 @@ def register(reg):
     g = "binary_read"
     reg.add(g, Contract(MOD + ":BinaryTrie._get", ["self", "node_hash", "keypath"], get_cases, setup=get_setup,
                         requires=get_requires, props=("C12", "C13")))
+    _register_write(reg)
+
+
+# _hash_and_save -------------------------------------------------------------------------------------
+def has_setup(E):
+    node = E.fresh_seq("node", "bytes")
+    t = BM.mk_trie(E)
+    E.assume(mk_bool(BM.wf(BM.dec(node.t), BM.blank_hash(E))))
+    E.assume(mk_bool(BM.dec(node.t) == BM.dec_definition(node.t)))      # the unit works on bytes: reveal dec here
+    return {"self": t, "node": node}
+
+
+def has_requires(E, ctx):
+    return [("well-formed-node", mk_bool(BM.wf(BM.dec(ops.seq_term_as(ctx.node, "int")), BM.blank_hash(E))))]
+
+
+def has_cases(E, ctx):
+    db = ctx.self.fields["db"]
+    n = ops.seq_term_as(ctx.node, "int")
+    h = E.keccak(SSeq(n, "bytes", "int"))
+    # the store invariant at the key written: an entry that is already there is the pre-image of its key
+    E.assume(mk_bool(z3.Implies(z3.Select(ctx.old_has(db), h.t), z3.Select(ctx.old_val(db), h.t) == BM.unk(h.t))))
+
+    def post():
+        return [("stored", mk_bool(z3.And(db.has == z3.Store(ctx.old_has(db), h.t, z3.BoolVal(True)),
+                                          db.val == z3.Store(ctx.old_val(db), h.t, n))))]
+    return [Case("saved", returns=lambda: h, post=post, modifies=[db])]
+
+
+# _set -----------------------------------------------------------------------------------------------
+def nov(E):
+    return objs.exc(E, "NodeOverrideError")
+
+
+def set_setup(E):
+    t = BM.mk_trie(E)
+    h = objs.hash32(E, "node_hash")
+    k = bits(E, "keypath")
+    v = E.fresh_seq("value", "bytes")
+    sub = E.fresh_bool("if_delete_subtrie")
+    E.assume(mk_bool(z3.Implies(sub.t, z3.Length(v.t) == 0)))
+    E.assume(mk_bool(z3.Implies(h.t == BM.blank_hash(E), z3.Length(k.t) > 0)))
+    # one mode per path (insert / delete / delete-subtrie): smaller obligations
+    if E.decide(sub):
+        sub = True
+    else:
+        sub = False
+        E.decide(mk_bool(z3.Length(v.t) > 0))
+    q0 = bits(E, "q0")                      # the key at which the view clause is proved (arbitrary)
+    E.ghost["q0"] = q0.t
+    return {"self": t, "node_hash": h, "keypath": k, "value": v, "if_delete_subtrie": sub}
+
+
+def set_requires(E, ctx):
+    from contracts.binaries_c import allbit_of
+    h = ops.seq_term_as(ctx.node_hash, "int")
+    k = ops.seq_term_as(ctx.keypath, "int")
+    v = ops.seq_term_as(ctx.value, "int")
+    side = []
+    okb = allbit_of(k, side)
+    for f in side:
+        E.assume(mk_bool(f))
+    sub = ctx.if_delete_subtrie
+    subt = sub.t if isinstance(sub, SBool) else z3.BoolVal(bool(sub))
+    return [("hash-is-32-bytes", mk_bool(z3.Length(h) == 32)), ("key-is-a-bit-string", mk_bool(okb)),
+            ("no-empty-key-below-a-blank-node", mk_bool(z3.Implies(h == BM.blank_hash(E), z3.Length(k) > 0))),
+            ("subtrie-delete-passes-empty-value", mk_bool(z3.Implies(subt, z3.Length(v) == 0)))]
+
+
+def view_after(h, k, v, subt, q):
+    """the lookup function required of the result, at key q"""
+    ins = z3.And(z3.Length(v) > 0, z3.Not(subt))
+    old = BM.blk(h, q)
+    return z3.If(ins, z3.If(q == k, PyVal.PBytes(v), old),
+                 z3.If(subt, z3.If(z3.PrefixOf(k, q), PyVal.PNone, old),
+                       z3.If(q == k, PyVal.PNone, old)))
+
+
+def set_cases(E, ctx):
+    db = ctx.self.fields["db"]
+    h = ops.seq_term_as(ctx.node_hash, "int")
+    k = ops.seq_term_as(ctx.keypath, "int")
+    v = ops.seq_term_as(ctx.value, "int")
+    sub = ctx.if_delete_subtrie
+    subt = sub.t if isinstance(sub, SBool) else z3.BoolVal(bool(sub))
+    unit_mode = hasattr(ctx, "outcome")
+    x = z3.Const("x!grow", SeqI)
+
+    def grows():
+        return z3.ForAll([x], z3.Implies(z3.Select(ctx.old_has(db), x),
+                                         z3.And(z3.Select(db.has, x), z3.Select(db.val, x) == z3.Select(ctx.old_val(db), x))),
+                         patterns=[z3.Select(db.has, x), z3.Select(db.val, x)])
+
+    def ens(r):
+        rt = ops.seq_term_as(r, "int")
+        out = [("hash", mk_bool(z3.Length(rt) == 32)),
+               ("insert-never-empties", mk_bool(z3.Implies(z3.And(z3.Length(v) > 0, z3.Not(subt)), rt != BM.blank_hash(E))))]
+        if unit_mode:
+            q = E.ghost["q0"]
+            BM.unfold_blk(E, h, q)
+            BM.unfold_blk(E, rt, q)
+            BM.decompose(E, k, BM.parts_of(E, h).path)
+            from contracts import seqlemmas as SL
+            SL.key_pair_facts(E, k, q, BM.parts_of(E, h).path)
+            out.append(("view", mk_bool(BM.blk(rt, q) == view_after(h, k, v, subt, q))))
+        else:
+            E.ghost.setdefault("view_rules", []).append(
+                (z3.simplify(rt), lambda Q: BM.blk(rt, Q) == view_after(h, k, v, subt, Q), h))
+            out.append(("result-available", mk_bool(z3.Or(rt == BM.blank_hash(E), z3.Select(db.has, rt)))))
+        return out
+
+    def post():
+        return [("store-only-grows", mk_bool(grows()))]
+
+    def fresh_hash():
+        return objs.hash32(E, "_set.r")
+    return [Case("updated", ensures=ens, post=post, modifies=[db], rtype=fresh_hash),
+            Case("refused", raises=nov(E), post=post, modifies=[db]),
+            Case("missing-node", raises=KeyError, post=post, modifies=[db])]
+
+
+def _register_write(reg):
+    g = "binary_write"
+    reg.add(g, Contract(MOD + ":BinaryTrie._hash_and_save", ["self", "node"], has_cases, setup=has_setup,
+                        requires=has_requires, props=("C12", "C04")))
+    reg.add(g, Contract(MOD + ":BinaryTrie._set", ["self", "node_hash", "keypath", "value", "if_delete_subtrie"], set_cases,
+                        setup=set_setup, requires=set_requires, props=("C12",)))
